@@ -25,7 +25,7 @@ func (h *H) logf(format string, a ...any) {
 }
 
 func main() {
-	mode := flag.String("mode", "frame", "frame (C11: healthy link) | link (C14: faults)")
+	mode := flag.String("mode", "frame", "frame (C11: healthy link) | link (C14: faults) | transparency (C15: remote Kill / Watch)")
 	f := lib.ParseFlags()
 	o := lib.NewOut(f.Out)
 	h := &H{o: o, r: lib.NewRand(f.Seed), tier: f.Tier, seed: f.Seed, t0: time.Now()}
@@ -41,6 +41,8 @@ func main() {
 		h.runFrame()
 	case "link":
 		h.runLink()
+	case "transparency":
+		h.runTransparency()
 	default:
 		fmt.Fprintln(os.Stderr, "unknown mode")
 		os.Exit(2)
